@@ -380,6 +380,31 @@ func c18run(r *ev.Run) {
 				}
 			}
 		})
+		// conditions that already end in what an earlier call leaves behind (time >= 'string' AND time < 'string') with
+		// one more atom in front: a shortcut that recognises its own output must still strip the bound in front of it
+		{
+			var lower, upper []int
+			for i, a := range c18tab[:n-1] {
+				if a.isTime && !a.right && !a.upper && strings.HasPrefix(a.text, "time ") && strings.Contains(a.text, "'") {
+					switch a.op {
+					case ">=":
+						lower = append(lower, i)
+					case "<":
+						upper = append(upper, i)
+					}
+				}
+			}
+			parallelFor(n-1, func(i int) {
+				for _, lo := range lower {
+					for _, up := range upper {
+						for s := range cmShapes[3] {
+							explore([]int{i, lo, up}, s, z)
+						}
+					}
+				}
+			})
+			r.Set("window_shaped_tails", len(lower)*len(upper))
+		}
 		if th {
 			var core []int
 			for i, a := range c18tab[:n-1] {
